@@ -87,13 +87,21 @@ DonateEv(ev, t) ==
 \* is the script exactly <<repay x>> ?
 IsSingleRepay(sub, x) == Len(sub) = 1 /\ sub[1].a = "repay" /\ sub[1].x = x
 
+\* "the quoted payback amount" is what GetPaybackAmount answers: the loan plus each fee = floor(share * loan).  The
+\* clauses about exact repayment are stated on the specification's own Payback; this one ties the quote to it.
+QuoteChecks(q, amt) ==
+  << <<"C06.quote=loan+floor-fees",
+        q.res = "ok" => (/\ q.pf = MulFloor(amt, st.fees.p) /\ q.ff = MulFloor(amt, st.fees.f) /\ q.bf = MulFloor(amt, st.fees.b)
+                         /\ q.payback = Payback(st, amt))>> >>
+
 LoanEv(ev, t) ==
   LET script == ev.args.script
       amt == script[1].x
       sub == script[1].sub
       pred == RunScript(st, script, "vault")          \* the specification's own run of the transaction
       valid == st.tog.l /\ Zero \prec amt /\ amt \preceq st.bal
-  IN << <<"C06.exact-payback-suffices",
+  IN QuoteChecks(ev.pre.quote, amt) \o
+     << <<"C06.exact-payback-suffices",
            (valid /\ IsSingleRepay(sub, Payback(st, amt)) /\ Payback(st, amt) \preceq (st.aw ++ amt)) => ev.res = "ok">>,
         <<"C06.one-unit-less-never-suffices",
            (valid /\ IsSingleRepay(sub, Payback(st, amt) -- One)) => ev.res # "ok">>,
@@ -108,7 +116,8 @@ RouterLoanEv(ev, t) ==
       script == <<[a |-> "loan", x |-> amt, sub |-> sub]>>
       valid == st.tog.l /\ Zero \prec amt /\ amt \preceq st.bal
       fees == Payback(st, amt) -- amt
-  IN << <<"C06.router.fees-only-suffice",
+  IN QuoteChecks(ev.pre.quote, amt) \o
+     << <<"C06.router.fees-only-suffice",
            (valid /\ st.rb = Zero /\ IsSingleRepay(sub, fees) /\ Zero \prec fees /\ fees \preceq st.aw) => ev.res = "ok">>,
         <<"drift.tx.verdict", pred.ok = (ev.res = "ok")>> >>
      \o (IF ev.res = "ok"
